@@ -157,3 +157,24 @@ def random_state_rows(rng, n, depth=None):
                 z[i][c] ^= z[i][t]
     rows = [{"s": s[i], "p": [x[i][q] + 2 * z[i][q] for q in range(n)]} for i in range(n)]
     return random_regauge(rng, rows)
+
+
+def conj_rows(rows, gate, a, b=None):
+    """rows conjugated by H / S on qubit a or CNOT(a, b) (0-based), textbook rules; plain Python, signs included."""
+    out = []
+    for r in rows:
+        x = [1 if v in (1, 3) else 0 for v in r["p"]]
+        z = [1 if v in (2, 3) else 0 for v in r["p"]]
+        s = r["s"]
+        if gate == "H":
+            s ^= x[a] & z[a]
+            x[a], z[a] = z[a], x[a]
+        elif gate == "S":
+            s ^= x[a] & z[a]
+            z[a] ^= x[a]
+        else:
+            s ^= x[a] & z[b] & (x[b] ^ z[a] ^ 1)
+            x[b] ^= x[a]
+            z[a] ^= z[b]
+        out.append({"s": s, "p": [x[q] + 2 * z[q] for q in range(len(x))]})
+    return out
